@@ -119,6 +119,36 @@ func runTTL(rep *Report, replay string) {
 				case d > 0 && !near && d < now.UnixNano() && alive:
 					addV(fmt.Sprintf("[interval %v, %s] row %q is still present %v after its deadline (interval %v)", iv, label, r.name, time.Duration(now.UnixNano()-d), iv))
 				}
+				if alive && r.deadline > 0 && has && stored == r.deadline {
+					// the reading side of the API must report the same deadline: ExpiresAt exactly, the two TTL
+					// readers as the time left (a clock reading apart)
+					c.Query(func(txn *column.Txn) error {
+						return txn.QueryAt(r.idx, func(row column.Row) error {
+							if tg, ok := row.Int64("tag"); !ok || tg != int64(ri+100) {
+								return nil // the row went meanwhile
+							}
+							if cur, ok := row.Int64("expire"); !ok || cur != r.deadline {
+								return nil
+							}
+							t0 := time.Now()
+							at, ok1 := txn.TTL().ExpiresAt()
+							left1, ok2 := txn.TTL().TTL()
+							left2, ok3 := row.TTL()
+							t1 := time.Now()
+							lo, hi := time.Duration(r.deadline-t1.UnixNano())-time.Millisecond, time.Duration(r.deadline-t0.UnixNano())+time.Millisecond
+							switch {
+							case !ok1 || at.UnixNano() != r.deadline:
+								addV(fmt.Sprintf("[interval %v, %s] row %q: ExpiresAt reports %d (%v), the stored deadline is %d", iv, label, r.name, at.UnixNano(), ok1, r.deadline))
+							case !ok2 || left1 < lo || left1 > hi:
+								addV(fmt.Sprintf("[interval %v, %s] row %q: txn.TTL().TTL() reports %v (%v), the deadline is %v..%v away", iv, label, r.name, left1, ok2, lo, hi))
+							case !ok3 || left2 < lo || left2 > hi:
+								addV(fmt.Sprintf("[interval %v, %s] row %q: Row.TTL() reports %v (%v), the deadline is %v..%v away", iv, label, r.name, left2, ok3, lo, hi))
+							}
+							rep.count("deadline-read-back")
+							return nil
+						})
+					})
+				}
 				if alive && r.deadline >= 0 && has && stored != r.deadline {
 					addV(fmt.Sprintf("[interval %v, %s] row %q stores deadline %d, expected %d", iv, label, r.name, stored, r.deadline))
 				}
